@@ -1087,8 +1087,12 @@ impl TypedExpr {
                             let result_is_signed = result[0];
                             let not_all_bits_except_msb_are_zero =
                                 circuit.push_not(all_bits_except_msb_are_zero);
-                            let too_large_for_signed_representation = circuit
-                                .push_and(result_is_signed, not_all_bits_except_msb_are_zero);
+                            // the magnitude 2^(bits - 1) is only representable as a negative result
+                            let is_result_not_neg = circuit.push_not(is_result_neg);
+                            let magnitude_is_not_min = circuit
+                                .push_or(not_all_bits_except_msb_are_zero, is_result_not_neg);
+                            let too_large_for_signed_representation =
+                                circuit.push_and(result_is_signed, magnitude_is_not_min);
                             overflow =
                                 circuit.push_or(overflow, too_large_for_signed_representation);
                             let result_negated = circuit.push_negation_circuit(&result);
